@@ -23,20 +23,20 @@ class Case:
         self.cfg, self.witness = cfg or {}, witness
 
 
-def run_cases(chk, prop, cases, contracts=None):
+def run_cases(chk, prop, cases, contracts=None, backend=None, extra_patches=()):
     from contracts.generic import CONTRACTS
     contracts = contracts or CONTRACTS
     for c in cases:
         chk.under_contract(c.fn)
 
     def work(i):
-        return run_case(prop, cases[i], contracts)
+        return run_case(prop, cases[i], contracts, backend, extra_patches)
     for obs in pmap(work, len(cases)):
         for ob in obs:
             chk.add(ob)
 
 
-def run_case(prop, case, contracts):
+def run_case(prop, case, contracts, backend=None, extra_patches=()):
     keybase = f"{prop}/{case.key}"
     alg.ESCALATE[0] = not known_related(keybase)
     t0 = time.time()
@@ -60,7 +60,7 @@ def run_case(prop, case, contracts):
             return args, ("raise", e)
 
     try:
-        with stubs.installed(contracts):
+        with stubs.installed(contracts, backend=backend, extra_patches=extra_patches):
             for path in explore(thunk_catch, max_paths=32):
                 facts = path["hyps"] + path["pc"]
                 for label, fm, res in path["obs"]:
